@@ -2,7 +2,7 @@
 
 config keys: cli (None | list of str), shortcut (None | name -> taken as a CLI value), env (None | list),
 default (None | list: pyproject default-flags), tui (None | list: default-flags-tui), shortcuts (None | dict),
-tty (bool), ci (None | variable name), pycharm (bool), xdist (None | "0" | "2"), answers (str of y/n)."""
+skip_updates (bool: pyproject skip-snapshot-updates-for-now), tty (bool), ci (None | variable name), pycharm (bool), xdist (None | "0" | "2"), answers (str of y/n)."""
 from __future__ import annotations
 
 CATS = ("create", "fix", "trim", "update")
@@ -48,6 +48,8 @@ def resolve(cfg, pending=CATS):
                 continue
             if not ({"review", "report", c} & flags):
                 continue
+            if c == "update" and cfg.get("skip_updates") and "update" not in flags:
+                continue  # skip-snapshot-updates-for-now: not reported, no prompt, hence never approved through review
             shown.add(c)
             if c in flags:
                 approved.add(c)
